@@ -835,6 +835,13 @@ pub fn iteration_cases() -> Vec<String> {
     // the same with the entry before as an item of a list or an entry of a context
     "after([_], [_])", "coincides({k: _}, _)", "[_] + [_]", "[_] - [_]", "[_] * [_]", "[_] / [_]", "[_] ** [_]", "{k: _} - {k: [_]}", "[_] < [_]", "[_] = {k: _}", "[_] between [_] and [_]", "substring([_], [_])", "abs([_])",
     "date([_], [_], [_])", "decimal([_], [_])", "sum([_], [_])", "-[_]", "not([_])", "[_] and [_]", "if [_] then 1 else 2", "[_] in [[_]..[_]]", "[_] instance of number",
+    // the entry before twice in one operand: as two items, as two entries, as both end points of a range, and as a value
+    // that is invoked or asked for a member
+    "decimal(1, [_, _])", "decimal([_, _], 1)", "[_, _](1)", "[_, _](p: 1)", "{k: _, l: _}.zz", "[{k: _, l: _}].zz", "[_.._] - 1", "[_.._] + [_.._]", "-[_.._]", "[_.._] = 1", "[_.._] < 1", "after([_.._], 1)", "[_, _][{k: _}]",
+    "[_, _] instance of number", "abs([_, _])", "string length({k: _, l: _})", "substring([_, _], [_, _])", "date({k: _, l: _})", "time([_, _])", "duration([_, _])", "number([_, _], \".\", \",\")", "get value({k: _, l: _}, \"zz\")",
+    "get value([_, _], \"k\")", "sublist([_, _], 5)", "[_, _][5]", "if [_, _] then 1 else 2", "1 in [_, _][1]", "sort([_, _], [_, _])", "sort([_, _], function(a, b) [_, _])[1]", "mean([_, _])", "sum([[_, _]])", "min([_, _], [_, _])",
+    "modulo([_, _], 1)", "[_, _] ** 2", "[_, _] between 1 and 2", "1 between [_, _] and 2", "not([_, _])", "is([_, _], 1)", "{k: _, l: _} / 2", "2 / {k: _, l: _}", "[_.._] / 2", "[_.._] * 2", "[_.._] ** 2", "[_.._] and true",
+    "[_.._] instance of number", "abs([_.._])", "decimal([_.._], 1)", "[_.._].zz", "[_.._](1)", "[_.._][{k: _}]", "(function(x: number) x)([_, _])", "(function(x) -> number [_, _])(1)[1]",
   ] {
     let mut text = String::from("{a00: 1 / \"x\"");
     for k in 1..32 {
